@@ -456,13 +456,29 @@ func keyfileCase(c *Ctx, dir string, entropy []byte, pw string, flips int) {
 		if okOpen {
 			otok = "some:" + hx(pt)
 		}
-		ks2, err := kf2.Decrypt(pw)
+		var ks2 *wallet.KeyStore
+		panicked := false
+		func() {
+			defer func() {
+				if r := recover(); r != nil {
+					panicked = true
+				}
+			}()
+			ks2, err = kf2.Decrypt(pw)
+		}()
 		obs := "err " + walletErrKind(err)
-		if err == nil {
+		if panicked {
+			obs = "err panic"
+			err = fmt.Errorf("panic")
+		} else if err == nil {
 			obs = "ok " + hx(ks2.Entropy)
 		}
 		c.Emit("wl-decrypt %s %s %s %s %s %s | %s", hx(fields[0]), hx(fields[1]), hx(fields[2]), hx([]byte(pw)), hx(dk), otok, obs)
-		c.Hit("decrypt:" + tag + ":" + walletErrKind(err))
+		if panicked {
+			c.Hit("decrypt:" + tag + ":panic")
+		} else {
+			c.Hit("decrypt:" + tag + ":" + walletErrKind(err))
+		}
 		if expectOK {
 			if err != nil || !bytes.Equal(ks2.Entropy, entropy) {
 				c.Fail("key file of entropy %x does not decrypt to it with its password (err=%v)", entropy, err)
@@ -513,6 +529,41 @@ func keyfileCase(c *Ctx, dir string, entropy []byte, pw string, flips int) {
 		tp := kf.Path + ".tampered"
 		os.WriteFile(tp, out, 0o600)
 		dec([]string{"flip-cipher", "flip-nonce", "flip-salt"}[p.field], tp, pw, false, fs)
+	}
+	// structural changes: fields shortened / extended / emptied. Must never decrypt. (A nonce of the wrong length makes
+	// the AEAD panic inside Decrypt — observed and modelled as outcome "panic"; counted, not a property violation:
+	// the statement asks for failure, which a panic is.)
+	writeFields := func(fs [3][]byte) string {
+		var g map[string]interface{}
+		json.Unmarshal(raw, &g)
+		cr := g["crypto"].(map[string]interface{})
+		cr["cipherData"] = "0x" + hex.EncodeToString(fs[0])
+		cr["nonce"] = "0x" + hex.EncodeToString(fs[1])
+		cr["argon2Params"].(map[string]interface{})["salt"] = "0x" + hex.EncodeToString(fs[2])
+		out, _ := json.Marshal(g)
+		tp := kf.Path + ".struct"
+		os.WriteFile(tp, out, 0o600)
+		return tp
+	}
+	for _, st := range []struct {
+		tag string
+		f   func(fs *[3][]byte)
+	}{
+		{"nonce-short", func(fs *[3][]byte) { fs[1] = fs[1][:len(fs[1])-1] }},
+		{"nonce-long", func(fs *[3][]byte) { fs[1] = append(fs[1], 0) }},
+		{"nonce-empty", func(fs *[3][]byte) { fs[1] = nil }},
+		{"cipher-short", func(fs *[3][]byte) { fs[0] = fs[0][:len(fs[0])-1] }},
+		{"cipher-long", func(fs *[3][]byte) { fs[0] = append(fs[0], 0) }},
+		{"cipher-empty", func(fs *[3][]byte) { fs[0] = nil }},
+		{"salt-short", func(fs *[3][]byte) { fs[2] = fs[2][:len(fs[2])-1] }},
+		{"salt-empty", func(fs *[3][]byte) { fs[2] = nil }},
+	} {
+		if flips >= 0 && c.R.Intn(3) != 0 {
+			continue // every structural case on the sweep file, a third of them on the others
+		}
+		fs := [3][]byte{append([]byte{}, ct...), append([]byte{}, nonce...), append([]byte{}, salt...)}
+		st.f(&fs)
+		dec(st.tag, writeFields(fs), pw, false, fs)
 	}
 	// header checks of ReadKeyFile
 	for _, m := range []struct {
